@@ -169,7 +169,10 @@ func (fm *Server) Init(ctx context.Context, req *pb.InitRequest) (*pb.Response, 
 	fm.lock.Lock()
 	fm.status = FuseManagerWaitInit
 	defer func() {
-		fm.status = FuseManagerReady
+		if fm.curFs != nil {
+			// Become ready only when there is a filesystem that can serve requests.
+			fm.status = FuseManagerReady
+		}
 		fm.lock.Unlock()
 	}()
 
